@@ -34,12 +34,17 @@ func main() {
 type job struct {
 	sc    *sched.Scenario
 	bound int
+	// single: execute the default (non-preemptive) schedule only
+	single bool
 }
 
 func jobs(tier core.Tier) []job {
 	var out []job
 	for _, sc := range pipeScenarios(tier) {
-		out = append(out, job{sc, -1}) // pipe: every interleaving
+		out = append(out, job{sc: sc, bound: -1}) // pipe: every interleaving
+	}
+	if sc := largeBacklogScenario(70000); sc != nil {
+		out = append(out, job{sc: sc, single: true})
 	}
 	for _, b := range bfSpecs(tier) {
 		paths := len(expectedPaths(shapes[b.Shape]))
@@ -54,7 +59,7 @@ func jobs(tier core.Tier) []job {
 		case tier == core.Thorough && b.Workers >= 3 && paths >= 2:
 			bound = 1
 		}
-		out = append(out, job{b.scenario(), bound})
+		out = append(out, job{sc: b.scenario(), bound: bound})
 	}
 	// big jobs first so that the shards finish together
 	return out
@@ -64,6 +69,18 @@ func explore(run *core.Run) {
 	outcomes := int64(0)
 	for k, j := range jobs(run.Tier) {
 		if !run.Mine(k) {
+			continue
+		}
+		if j.single {
+			res, _, v := j.sc.Execute(nil, false)
+			run.Add("schedules", 1)
+			run.Add("scheduling_points", int64(len(res.Points)))
+			run.Add("single_schedule_scenarios", 1)
+			if v != nil {
+				v.Summary = "[" + j.sc.Name + "] " + v.Summary
+				v.Artefact = map[string]any{"scenario": j.sc.Name, "choices": []int{}}
+				run.Report(*v)
+			}
 			continue
 		}
 		st := sched.Explore(run, j.sc, j.bound)
